@@ -30,7 +30,8 @@ def cases(ctx):
 
 
 def execute(case):
-    return {"ev": [codec.xsd_case_event(case)]}
+    ev = codec.xsd_case_event(case)
+    return {"ev": [] if ev is None else [ev]}
 
 
 nontrivial = codec.nontrivial
